@@ -238,6 +238,43 @@ def leanchecker(module):
 
 # ----------------------------------------------------------------------------- harness runs
 
+STALL_S = float(os.environ.get("VERIF_STALL_S", "90"))
+
+
+class _Watched:
+    def __init__(self, returncode, stdout, stderr, hung):
+        self.returncode, self.stdout, self.stderr, self.hung = returncode, stdout, stderr, hung
+
+
+def _run_watched(cmd, input_text, timeout, env):
+    """run a line-protocol process with stdin/stdout/stderr on temp files and kill it when its output has not grown for
+    STALL_S seconds (a hang in the implementation must become a finding, not a stuck check)"""
+    import tempfile
+    with tempfile.TemporaryDirectory(dir=WORK if os.path.isdir(WORK) else None) as d:
+        fi, fo, fe = os.path.join(d, "in"), os.path.join(d, "out"), os.path.join(d, "err")
+        with open(fi, "w") as f:
+            f.write(input_text)
+        with open(fi) as si, open(fo, "w") as so, open(fe, "w") as se:
+            p = subprocess.Popen(cmd, stdin=si, stdout=so, stderr=se, env=env)
+            t0 = last = time.time()
+            size = -1
+            hung = False
+            while p.poll() is None:
+                time.sleep(0.05 if time.time() - t0 < 2 else 0.5)
+                sz = os.path.getsize(fo)
+                now = time.time()
+                if sz != size:
+                    size, last = sz, now
+                elif now - last > STALL_S or now - t0 > timeout:
+                    hung = True
+                    p.kill()
+                    p.wait()
+                    break
+        out = open(fo, errors="replace").read()
+        err = open(fe, errors="replace").read()
+        return _Watched(p.returncode, out, err, hung)
+
+
 def run_harness_lines(exe, args, ops, case_start=("init", "case"), timeout=3000, env=None):
     """Feed `ops` (list of lines) to the harness; one result line per op expected.
     A crash (sanitizer abort / signal) is mapped to `FAULT <summary>` on the op that was executing;
@@ -251,11 +288,24 @@ def run_harness_lines(exe, args, ops, case_start=("init", "case"), timeout=3000,
         e.update(env)
     while i < n:
         chunk = ops[i:]
-        r = subprocess.run([exe] + list(args), input="\n".join(chunk) + "\n", stdout=subprocess.PIPE,
-                           stderr=subprocess.PIPE, text=True, timeout=timeout, env=e)
+        r = _run_watched([exe] + list(args), "\n".join(chunk) + "\n", timeout, e)
         out = r.stdout.split("\n")
         if out and out[-1] == "":
             out.pop()
+        if r.hung:
+            # the harness answers every op with one flushed line: no new line for STALL_S seconds means the operation in
+            # flight does not terminate (or is absurdly slow) - "after a bounded number of steps" is part of the properties
+            out = out[:len(chunk) - 1] if len(out) >= len(chunk) else out
+            k = len(out)
+            results += out
+            faults.append((i + k, "hang", f"no answer for {STALL_S}s on: {chunk[k][:300]}"))
+            results.append("FAULT hang")
+            j = i + k + 1
+            while j < n and not ops[j].split(" ", 1)[0] in case_start:
+                results.append("SKIP")
+                j += 1
+            i = j
+            continue
         if r.returncode == 0 and len(out) == len(chunk):
             results += out
             break
